@@ -362,6 +362,9 @@ def main(tier):
     deadline = time.time() + (75 if quick else 700)
     for r in common.pmap(dispatch, items, deadline=deadline):
         col.add(r)
+    if not quick:
+        from . import memcheck_layer
+        memcheck_layer.run(col, PROP, ('dofiles',), time.time() + 300)
     rc = col.finish()
     common.cleanup_scratch()
     return rc
